@@ -196,14 +196,14 @@ Proof.
   cbn [lexdecls] in Hnd, Hlex. cbn [vardecls] in Hvar. cbn [spec_ok] in Hok.
   apply andb_true_iff in Hok. destruct Hok as [Hok Hokk]. apply andb_true_iff in Hok. destruct Hok as [Hsc Hokb].
   destruct (scope_ok_spec [] b Hsc) as (Hndb & Hlv & _).
-  set (prB := mkPr (lexdecls b) [] false).
+  set (prB := mkPr (lexdecls b) [] false []).
   destruct (L_enter a ((fr, pr) :: rest) false prB A) as (a1 & H1 & A1 & El & En).
   { intros y _ []. }
   set (B0 := mkF (anext a) false [] [] O O) in *.
   destruct (IHb a1 B0 prB ((fr, pr) :: rest) A1 Hndb) as (a2 & B' & z1 & R2 & A2 & G2 & P1b & P2b & P3b & P4b & P5b & F2 & N2).
   { intros y Hy. split; [exact Hy|intros []]. }
   { intros y Hy. cbn [var_ok fisfunc B0]. split.
-    - unfold pnames. cbn [pvar plex prB app]. intros Hi. apply (Hlv y Hi Hy).
+    - unfold pall, pnames. cbn [pvar plex pfut prB app]. rewrite app_nil_r. intros Hi. apply (Hlv y Hi Hy).
     - apply Hvar. apply in_app_iff. left. exact Hy. }
   { rewrite Hb0. constructor. }
   { rewrite Hb0. intros y []. }
@@ -287,8 +287,8 @@ Proof.
   apply nodupb_NoDup in Hndp. destruct (scope_ok_spec (headdecls ps) b Hsc) as (Hndb & Hlv & Hlh).
   destruct (pcore_x_lexvar ps Hps) as [Epl Epv].
   (* what the scope promises while the parameter list runs, and from the mark on *)
-  set (prP := mkPr [] (headdecls ps) false).
-  set (prF := mkPr (lexdecls b) (headdecls ps ++ vardecls b) true).
+  set (prP := mkPr [] (headdecls ps) false []).
+  set (prF := mkPr (lexdecls b) (headdecls ps ++ vardecls b) true []).
   assert (EpnP : pnames prP = headdecls ps) by (unfold pnames; cbn [pvar plex prP]; apply app_nil_r).
   assert (Epn : pnames prF = headdecls ps ++ vardecls b ++ lexdecls b).
   { unfold pnames. cbn [pvar plex prF]. rewrite <- app_assoc. reflexivity. }
@@ -407,8 +407,8 @@ Proof.
   destruct (pcore_x_lexvar ps Hps) as [Epl Epv].
   assert (Hgp : ~ In g (headdecls ps)) by (intros H; apply Hg; apply in_app_iff; left; exact H).
   assert (Hgb : ~ In g (vardecls b ++ lexdecls b)) by (intros H; apply Hg; apply in_app_iff; right; exact H).
-  set (prP := mkPr [g] (headdecls ps) false).
-  set (prF := mkPr (lexdecls b ++ [g]) (headdecls ps ++ vardecls b) true).
+  set (prP := mkPr [g] (headdecls ps) false []).
+  set (prF := mkPr (lexdecls b ++ [g]) (headdecls ps ++ vardecls b) true []).
   assert (EpnP : pnames prP = headdecls ps ++ [g]) by reflexivity.
   assert (Epn : pnames prF = headdecls ps ++ vardecls b ++ lexdecls b ++ [g]).
   { unfold pnames. cbn [pvar plex prF]. rewrite <- app_assoc. reflexivity. }
@@ -598,8 +598,8 @@ Proof.
   apply andb_true_iff in Hok. destruct Hok as [Hok _]. apply andb_true_iff in Hok. destruct Hok as [Hndp Hsc].
   apply nodupb_NoDup in Hndp. destruct (scope_ok_spec (headdecls hd) b Hsc) as (Hndb & Hlv & Hlh).
   pose proof (disjointb_spec _ _ Hdisj) as Hhv.
-  set (prH := mkPr (headdecls hd) [] false).
-  set (prC := mkPr (headdecls hd ++ lexdecls b) [] true).
+  set (prH := mkPr (headdecls hd) [] false []).
+  set (prC := mkPr (headdecls hd ++ lexdecls b) [] true []).
   assert (EpnH : pnames prH = headdecls hd) by reflexivity.
   assert (Epn : pnames prC = headdecls hd ++ lexdecls b) by reflexivity.
   destruct (L_enter a ((fr, pr) :: rest) false prH A) as (a1 & H1 & A1 & El1 & En1).
@@ -624,7 +624,7 @@ Proof.
   destruct (IHb a2m C2m prC ((fr, pr) :: rest) A2m Hndb) as (a3 & C' & z1 & R3 & A3 & G3 & P1b & P2b & _ & P4b & P5b & F3 & N3).
   { intros y Hy. split; [cbn [plex prC]; apply in_app_iff; right; exact Hy|]. rewrite EdnM. apply Hlh. exact Hy. }
   { intros y Hy. cbn [var_ok]. rewrite M2, E2. split.
-    - unfold pnames. cbn [pvar plex prC app]. intros Hi. apply in_app_iff in Hi. destruct Hi as [Hi|Hi]; [apply (Hhv y Hi Hy)|apply (Hlv y Hi Hy)].
+    - unfold pall, pnames. cbn [pvar plex pfut prC app]. rewrite app_nil_r. intros Hi. apply in_app_iff in Hi. destruct Hi as [Hi|Hi]; [apply (Hhv y Hi Hy)|apply (Hlv y Hi Hy)].
     - apply Hvar. apply in_app_iff. left. exact Hy. }
   { rewrite Hb0. constructor. } { rewrite Hb0. intros y []. }
   { exact Hokb. }
@@ -691,7 +691,7 @@ Qed.
 (* ---- For: loop head and loop body in ONE Scope, MarkForStmt between them -------------------------------------------- *)
 Lemma run_ok_for hd b k :
   headdecls hd = [] -> headdecls b = [] ->
-  (forall x, In x (allnames hd) -> ~ In x (lexdecls b)) ->
+  (forall x, In x (lexdecls hd) -> ~ In x (lexdecls b)) ->
   (forall x, In x (vardecls hd) -> ~ In x (lexdecls hd ++ lexdecls b)) ->
   (forall x, In x (headdecls k) -> ~ In x (allnames hd ++ allnames b)) ->
   run_ok hd -> run_ok b -> run_ok k -> run_ok (For hd b k).
@@ -703,18 +703,20 @@ Proof.
   apply andb_true_iff in Hok. destruct Hok as [Hndh' Hhv]. apply nodupb_NoDup in Hndh'.
   pose proof (disjointb_spec _ _ Hhv) as Hhv'.
   destruct (scope_ok_spec [] b Hsc) as (Hndb & Hlv & _).
-  set (prH := mkPr (lexdecls hd ++ lexdecls b) [] false).
-  set (prB := mkPr (lexdecls hd ++ lexdecls b) [] true).
-  assert (EpnH : pnames prH = lexdecls hd ++ lexdecls b) by reflexivity.
+  set (prH := mkPr (lexdecls hd) [] false (lexdecls b)).
+  set (prB := mkPr (lexdecls hd ++ lexdecls b) [] true []).
+  assert (EpnH : pnames prH = lexdecls hd) by reflexivity.
+  assert (EpaH : pall prH = lexdecls hd ++ lexdecls b) by reflexivity.
+  assert (Epa : pall prB = lexdecls hd ++ lexdecls b) by (unfold pall; cbn [pfut prB]; rewrite app_nil_r; reflexivity).
   assert (Epn : pnames prB = lexdecls hd ++ lexdecls b) by reflexivity.
   destruct (L_enter a ((fr, pr) :: rest) false prH A) as (a1 & H1 & A1 & El1 & En1).
   { intros y _ []. }
   set (B0 := mkF (anext a) false [] [] O O) in *.
   (* the head *)
   destruct (IHh a1 B0 prH ((fr, pr) :: rest) A1 Hndh') as (a2 & B2 & z2 & R2 & A2 & G2 & P1h & P2h & _ & P4h & _ & Fh & Nh).
-  { intros y Hy. split; [cbn [plex prH]; apply in_app_iff; left; exact Hy|intros []]. }
+  { intros y Hy. split; [exact Hy|intros []]. }
   { intros y Hy. cbn [var_ok fisfunc B0]. split.
-    - rewrite EpnH. apply Hvh. exact Hy.
+    - rewrite EpaH. apply Hvh. exact Hy.
     - apply Hvar. apply in_app_iff. left. exact Hy. }
   { rewrite Hh0. constructor. } { rewrite Hh0. intros y []. }
   { exact Hokh. }
@@ -728,25 +730,25 @@ Proof.
   (* MarkForStmt: the uses made by the head are of names the loop scope does not declare *)
   destruct (A_frames _ _ A2) as [KB2 _].
   assert (Hargs : forall y, In (UPend y) (fund B2) -> ~ In y (pnames prH)).
-  { intros y Hy Hin. destruct (P4h y Hy) as [[]|Hall]. rewrite EpnH in Hin. apply in_app_iff in Hin. destruct Hin as [Hin|Hin].
-    - apply (K_pend _ _ _ KB2 y Hy). apply P1h. exact Hin.
-    - apply (Hhb y Hall Hin). }
+  { intros y Hy Hin. rewrite EpnH in Hin. apply (K_pend _ _ _ KB2 y Hy). apply P1h. exact Hin. }
   destruct (L_mark_gen a2 B2 prH prB z2 (fun fr0 => length (fdecl fr0)) A2 eq_refl eq_refl)
     as (a2m & B2m & Hm & A2m & M1 & M2 & M3 & M4 & _ & M5 & M6).
   { intros Hf. rewrite HfB2 in Hf. discriminate. }
   { exact Hargs. }
-  { exact (K_decl _ _ _ KB2). }
+  { intros y k0 Hy. destruct (K_decl _ _ _ KB2 y k0 Hy) as [Q1 Q2]. split.
+    - rewrite EpnH in Q1. rewrite Epn. apply in_app_iff. left. exact Q1.
+    - intros Hk. specialize (Q2 Hk). cbn [plex prH prB] in *. apply in_app_iff. left. exact Q2. }
   { intros y _ []. }
-  { intros y fs Hy. destruct (K_pass _ _ _ KB2 y fs Hy) as [_ Hp]. cbn [pass_ok] in Hp. rewrite HfB2 in Hp. exact (proj1 Hp). }
+  { intros y fs Hy. destruct (K_pass _ _ _ KB2 y fs Hy) as [_ Hp]. cbn [pass_ok] in Hp. rewrite HfB2 in Hp. rewrite Epa, <- EpaH. exact (proj1 Hp). }
   assert (EdnM : dnames B2m = dnames B2) by (unfold dnames; rewrite M3; reflexivity).
   (* the body *)
   destruct (IHb a2m B2m prB z2 A2m Hndb) as (a3 & B' & z3 & R3 & A3 & G3 & P1b & P2b & _ & P4b & P5b & F3 & N3).
   { intros y Hy. split; [cbn [plex prB]; apply in_app_iff; right; exact Hy|]. rewrite EdnM. intros Hi.
     destruct (G2b y Hi) as [[]|[Hi'|Hi']].
-    - apply (Hhb y (lexdecls_allnames hd y Hi') Hy).
-    - apply (Hhb y (vardecls_allnames hd y Hi') Hy). }
+    - apply (Hhb y Hi' Hy).
+    - apply (Hvh y Hi'). apply in_app_iff. right. exact Hy. }
   { intros y Hy. cbn [var_ok]. rewrite M2, HfB2. split.
-    - rewrite Epn. intros Hi. apply in_app_iff in Hi. destruct Hi as [Hi|Hi]; [apply (Hhv' y Hi Hy)|apply (Hlv y Hi Hy)].
+    - rewrite Epa. intros Hi. apply in_app_iff in Hi. destruct Hi as [Hi|Hi]; [apply (Hhv' y Hi Hy)|apply (Hlv y Hi Hy)].
     - apply (var_ok_shape y ((fr, pr) :: rest)); [symmetry; exact Hs2z|]. apply Hvar. apply in_app_iff. right. apply in_app_iff. left. exact Hy. }
   { rewrite Hb0. constructor. } { rewrite Hb0. intros y []. }
   { exact Hokb. }
@@ -764,8 +766,8 @@ Proof.
   assert (Eb' : below (vardecls hd ++ vardecls b) (B', prB) = vardecls hd ++ vardecls b) by (unfold below; cbn [fst]; rewrite HfB'false; reflexivity).
   (* the environments as the resolver writes them *)
   assert (Eenv0 : env_of ((B0, prH) :: (fr, pr) :: rest)
-                  = (anext a, false, lexdecls hd ++ lexdecls b) :: env_of ((fr, pr) :: rest)) by reflexivity.
-  assert (EenvH2 : env_of ((B2, prH) :: z2) = (anext a, false, lexdecls hd ++ lexdecls b) :: env_of ((fr, pr) :: rest)).
+                  = (anext a, false, lexdecls hd) :: env_of ((fr, pr) :: rest)) by reflexivity.
+  assert (EenvH2 : env_of ((B2, prH) :: z2) = (anext a, false, lexdecls hd) :: env_of ((fr, pr) :: rest)).
   { rewrite (env_of_shape _ _ Hs2full). exact Eenv0. }
   assert (Eenv2 : env_of ((B2m, prB) :: z2) = (anext a, false, lexdecls hd ++ lexdecls b) :: env_of ((fr, pr) :: rest)).
   { cbn [env_of map fst snd]. rewrite M1, HfidB2, Epn. f_equal. apply (env_of_shape _ _ Hs2z). }
@@ -773,14 +775,7 @@ Proof.
   { cbn [func_of]. rewrite M2, HfB2. apply (func_of_shape _ _ Hs2z). }
   assert (Efun0 : func_of ((B0, prH) :: (fr, pr) :: rest) = func_of ((fr, pr) :: rest)) by reflexivity.
   rewrite Eenv0, Efun0, El1, En1 in Fh. rewrite Eenv0, Efun0, En1 in Nh. cbn [fid B0] in Fh, Nh.
-  (* the head resolved in the scope of its own declarations only *)
-  assert (Eirr : resolve_m ((anext a, false, lexdecls hd ++ lexdecls b) :: env_of ((fr, pr) :: rest))
-                         (func_of ((fr, pr) :: rest)) (anext a) false (S (anext a)) hd
-                 = resolve_m ((anext a, false, lexdecls hd) :: env_of ((fr, pr) :: rest))
-                         (func_of ((fr, pr) :: rest)) (anext a) false (S (anext a)) hd).
-  { apply (resolve_irrelevant hd [] (anext a) false (lexdecls hd) (lexdecls b)).
-    intros y Hy Hx. exfalso. apply (Hhb y Hy Hx). }
-  rewrite Eirr in Fh, Nh.
+  rewrite (final_push2 a ((fr, pr) :: rest) (anext a) (lexdecls hd) (lexdecls hd ++ lexdecls b) A (le_n _)) in Fh.
   remember (resolve_m ((anext a, false, lexdecls hd) :: env_of ((fr, pr) :: rest)) (func_of ((fr, pr) :: rest)) (anext a) false (S (anext a)) hd) as RH eqn:HeqRH.
   rewrite M5, EenvH2, Fh in F3.
   rewrite Eenv2, Efun2, M1, HfidB2, M6, Nh in F3, N3.
